@@ -14,6 +14,10 @@ NA = {
 }
 
 CHECKS = {
+ "C09": dict(engine="K2", category="exploration", design="§4 C09",
+   technique="deterministic simulation: seeded exclusive scheduler with race-detector-invisible hand-off over statement-level yield points in the middleware (-race build); solo-equality + own-token oracles, reference memo model over generated accessor programs, admitted race reports",
+   text="N=2..6 requests with unique tokens in every position are served by one middleware.Context, through the full APIHandler or through tape-generated accessor programs (RouteInfo / ContentType / ResponseFormat / Authorize / BindAndValidate / ResetAuth with repetition, threading the returned request). Exactly one request runs at a time; preemption happens at instrumented statement boundaries chosen by the tape (PCT-style change points) and at every collaborator call; hand-over uses raw pipe system calls the race detector cannot see, so any conflicting access pair ordered only by the simulator is reported, deterministically per tape. Oracles: each request's observation record equals its solo execution on an identically built handler and carries only its own tokens; a reference memo model (same request value and result on a repeated accessor, no second consultation of authenticators after a principal, no second consumption of the body, principal and scopes gone after ResetAuth); no race report with both stacks inside go-openapi/runtime. Seeded sampling of schedules and programs; not proof.",
+   note="Dependency-internal map orders (produces/consumes lists, scheme order) are normalised per run so that the solo and the concurrent handler are identical; no fake clock under K2; evicted or stdlib-masked races can be missed; race violations are not minimised in-process (reports are de-duplicated per process) but replay in a fresh process."),
  "C15": dict(engine="SEQ", category="fault_enumeration", design="§4 C15",
    technique="deterministic simulation with stream fault injection: every built-in codec × source/destination kind over scripted readers/writers (chunking, zero-length reads, data+EOF, read/write error at every offset, close accounting) against byte-exact and round-trip oracles; sweep of every fault offset",
    text="A bytes.Buffer never short-reads or fails mid-stream. Each run puts one codec call (JSON, XML, YAML, text, byte stream; every supported source and destination kind; closing option on/off) over a scripted stream or sink whose chunking, zero-length reads, data-together-with-EOF and the single injected read or write error are drawn from the tape; oracles: byte-exactness for the text and byte-stream codecs under any chunking, consume(produce(v)) == v for the structured codecs over a conservative value domain, an injected error is returned and never becomes a shorter success, the stream is closed iff the option was requested (a closable source payload always), unsupported/nil/typed-nil destinations give an error and never a panic, no aliasing between two consecutive results. The thorough tier sweeps every read-error offset, write-error offset and zero-length-read position for each (codec, kind, content class).",
